@@ -193,7 +193,7 @@ func (conn *ConnectionSet) ContainedIn(other *ConnectionSet) bool {
 
 // AddConnection updates current ConnectionSet object with new allowed connection
 func (conn *ConnectionSet) AddConnection(protocol v1.Protocol, ports *PortSet) {
-	if ports.IsEmpty() {
+	if conn.AllowAll || ports.IsEmpty() { // nothing to add
 		return
 	}
 	connPorts, ok := conn.AllowedProtocols[protocol]
